@@ -6,7 +6,7 @@ import z3
 from pyvc import heap as H, models, ops, source, spec as S
 from pyvc.contract import Contract, loop, register
 from pyvc.engine import LoopSpec, SymRaise, _MISSING
-from pyvc.values import SArr, SClassRef, SExc, SNative, SObj, SOpaque, SSeq, Undecided, to_real, to_z3
+from pyvc.values import SArr, SCell, SClassRef, SExc, SNative, SObj, SOpaque, SSeq, Undecided, to_real, to_z3
 
 from .collections import (CLASSES, DM, EM, TR, I, Rl, B, frame_old_records, layout_of, rec_fields_equal, snapshot, sym_em, sym_heap_droplet,
                           sym_real_list, sym_track, touch_layout)
@@ -78,3 +78,584 @@ class TotalVolume(Contract):
                  z3.Implies(z3.And(k >= 0, k < to_z3(em.length)), to_real(seq.at(k)) == to_real(S.V(case["dim"], view.radius(k))))),
                 ("the sum is what is returned", ret is tot),
                 ("no droplet is modified", frame_old_records(run, arrs0, lay))]
+
+
+# ---------------------------------------------------------------------------------------------------
+class CtorRec(SObj):
+    """an object created by a recorded constructor call (the constructor has its own contract)"""
+
+    def __init__(self, cls, args, kwargs):
+        super().__init__(cls, {})
+        self.args, self.kwargs = list(args), dict(kwargs)
+
+
+def _record_ctor(run, name):
+    recs = []
+    models.CONSTRUCTORS[name] = lambda eng, run2, cls, args, kw: (recs.append(CtorRec(cls, args, kw)) or recs[-1])
+    return recs
+
+
+@register
+class EmulsionCopy(Contract):
+    """Emulsion.copy(min_radius): a new emulsion holding independent copies of exactly the members with radius > min_radius, in order"""
+    key = f"{EM}:Emulsion.copy"
+    modular = False
+
+    def cases(self):
+        return [dict(cls=c, dim=2, min_radius=m) for c in CLASSES for m in ("default", "given")]
+
+    def setup(self, run, case):
+        lay = layout_of(case["cls"], case["dim"])
+        touch_layout(run, lay)
+        em = sym_em(run, "self", case["dim"], case["cls"])
+        view = EmView(run, case["dim"], case["cls"], em.elems)
+        self.ctors = _record_ctor(run, "Emulsion")
+        mr = run.input_real("min_radius") if case["min_radius"] == "given" else None
+        self.ctx = (run, em, view, snapshot(run), lay, mr)
+        a = dict(self=em)
+        if mr is not None:
+            a["min_radius"] = mr
+        return a
+
+    def post(self, a, ret, case):
+        from .parallel import SFilterMap
+        run, em, view, arrs0, lay, mr = self.ctx
+        h = H.heap_of(run)
+        out = [("the result is one new emulsion of the same class, built from the list of copies (copying them once more or not is immaterial)",
+                len(self.ctors) == 1 and ret is self.ctors[0] and ret.cls.name == "Emulsion" and len(ret.args) == 1 and set(ret.kwargs) <= {"copy"})]
+        if not out[0][1]:
+            return out
+        lst = ret.args[0]
+        if not isinstance(lst, SFilterMap):
+            return out + [("the new members are produced from the members of this emulsion, one by one", False)]
+        k = z3.Int("sk_member")
+        inr = z3.And(k >= 0, k < to_z3(em.length))
+        thr = mr if mr is not None else z3.RealVal(-1)
+        srck = lst.src.at(k)
+        out.append(("the new members are produced from the members of this emulsion, one by one, in order",
+                    z3.And(to_z3(lst.n) == to_z3(em.length), srck.ref == z3.Select(em.elems, k)) if isinstance(srck, H.SRefObj) else False))
+        out.append(("member k is kept exactly when its radius exceeds min_radius (default -1: every droplet, also a vanished one of radius 0)",
+                    z3.Implies(inr, to_z3(lst.keep(k)) == (view.radius(k) > thr))))
+        v = lst.val(k)
+        if not isinstance(v, H.SRefObj):
+            return out + [("a kept member is stored as a copy", False)]
+        nrec = h.read("data", v.ref, sort=I)
+        out.append(("a kept member is stored as a NEW object with a NEW data record holding the member's values (independent of the source)",
+                    z3.Implies(inr, z3.And(v.ref >= h.alloc0, nrec >= h.alloc0,
+                                           rec_fields_equal(lay, h.arr, nrec, arrs0, z3.Select(arrs0["data"], z3.Select(em.elems, k)), case["dim"])))))
+        out.append(("the source emulsion and its droplets are not modified", z3.And(frame_old_records(run, arrs0, lay), to_z3(em.length) == to_z3(em.length))))
+        return out
+
+
+# ---------------------------------------------------------------------------------------------------
+@register
+class ExtendCall(Contract):
+    """Emulsion.extend at the call site inside Emulsion.__init__ (its own contract: EmulsionExtend, verified separately)"""
+    key = f"{EM}:Emulsion.extend"
+    variant = "init-call"
+    call_site = True
+
+    def cases(self):
+        return []
+
+    def apply(self, engine, run, fi, args, kwargs):
+        g = run.ghost.get("em_init")
+        if g is None:
+            return NotImplemented
+        run.trust(f"contract:{self.key} (verified separately): appends (copies of) the given droplets in order")
+        g["extends"].append((list(args), dict(kwargs)))
+        return None
+
+
+@register
+class EmulsionInit(Contract):
+    """Emulsion(droplets, copy=, dtype=, force_consistency=): an empty emulsion with the declared dtype, extended by exactly the given droplets with
+    exactly the given flags (default: copies)"""
+    key = f"{EM}:Emulsion.__init__"
+    modular = False
+
+    def cases(self):
+        return [dict(droplets=d, copy=c, dtype=t) for d in ("given", "none") for c in ("default", False) for t in ("none", "droplet")]
+
+    def setup(self, run, case):
+        me = H.SListObj(run, source.get_class(EM, "Emulsion"), 0, z3.K(I, z3.IntVal(0)), None, tag="new emulsion")
+        me.fields = {}
+        run.ghost["em_init"] = dict(extends=[])
+        drops = SOpaque("the given droplets") if case["droplets"] == "given" else None
+        kw = {}
+        if case["copy"] is False:
+            kw["copy"] = False
+        self.fc = run.input_bool("force_consistency")
+        kw["force_consistency"] = self.fc
+        self.example_dt = None
+        if case["dtype"] == "droplet":
+            touch_layout(run, layout_of("DiffuseDroplet", 2))
+            ex = sym_heap_droplet(run, "example", 2, "DiffuseDroplet")
+            kw["dtype"] = ex
+            h = H.heap_of(run)
+            self.example_dt = h.read("dtype_tag", h.read("data", ex.ref, sort=I), sort=I)
+        self.ctx = (run, me, drops, kw)
+        return dict(self=me, droplets=drops, **kw)
+
+    def call(self, engine, run, fi, a, case):
+        run_, me, drops, kw = self.ctx
+        return engine.call_function(run, fi, [me, drops], dict(kw))
+
+    def post(self, a, ret, case):
+        from .collections import SDt
+        run, me, drops, kw = self.ctx
+        ext = run.ghost["em_init"]["extends"]
+        dt = me.fields.get("dtype", "missing")
+        out = []
+        if case["dtype"] == "none":
+            out.append(("without a declared dtype the emulsion starts with dtype None (the first droplet defines it)", dt is None))
+        else:
+            out.append(("an example droplet declares its data layout as the emulsion's dtype", isinstance(dt, SDt) and dt.tag == self.example_dt))
+        if drops is None:
+            out.append(("without droplets the emulsion stays empty", not ext and to_z3(me.length) == 0))
+        else:
+            ok = len(ext) == 1 and ext[0][0][0] is me and (ext[0][0][1:] == [drops] or ext[0][1].get("droplets") is drops)
+            out.append(("the given droplets are added by one call of extend on the new, empty emulsion", bool(ok) and to_z3(me.length) == 0))
+            if ok:
+                k = ext[0][1]
+                out.append(("the copy flag is forwarded (default: droplets are stored as independent copies)",
+                            (k.get("copy", True) is True) if case["copy"] == "default" else (k.get("copy", True) is False)))
+                out.append(("the consistency flag is forwarded", k.get("force_consistency", False) is self.fc or
+                            (z3.is_expr(k.get("force_consistency")) and z3.eq(k.get("force_consistency"), self.fc))))
+        return out
+
+
+# ---------------------------------------------------------------------------------------------------
+class _Concat:
+    """list.__add__(a, b) of two symbolic lists"""
+
+    def __init__(self, a, b):
+        self.a, self.b = a, b
+
+
+class _Sliced:
+    """list.__getitem__(lst, key) with a slice key"""
+
+    def __init__(self, lst, key):
+        self.lst, self.key = lst, key
+
+
+def _list_unbound(run):
+    """`list.__add__` / `list.__getitem__` called unbound on list subclasses (Emulsion, DropletTrackList)"""
+    def add(run2, a, k):
+        return _Concat(a[0], a[1])
+
+    def getitem(run2, a, k):
+        lst, key = a
+        if isinstance(key, slice) or isinstance(key, SOpaque) and key.tag == "slice":
+            return _Sliced(lst, key)
+        return run2.engine.getitem(run2, lst, key) if hasattr(run2.engine, "getitem") else models.getitem(run2.engine, run2, lst, key)
+    return SOpaque("list", attrs={"__add__": SNative(add, "list.__add__"), "__getitem__": SNative(getitem, "list.__getitem__")})
+
+
+@register
+class EmulsionAdd(Contract):
+    """a + b for emulsions: a NEW emulsion built from the concatenation with the default copy behaviour (members are independent copies)"""
+    key = f"{EM}:Emulsion.__add__"
+    modular = False
+
+    def cases(self):
+        return [dict(cls=c, dim=2) for c in CLASSES]
+
+    def setup(self, run, case):
+        lay = layout_of(case["cls"], case["dim"])
+        touch_layout(run, lay)
+        a_, b_ = sym_em(run, "self", case["dim"], case["cls"]), sym_em(run, "rhs", case["dim"], case["cls"])
+        self.ctors = _record_ctor(run, "Emulsion")
+        self.ctx = (run, a_, b_, snapshot(run), lay)
+        return dict(self=a_, rhs=b_)
+
+    def call(self, engine, run, fi, a, case):
+        from pyvc.engine import Frame
+        clo = Frame(None, {"list": _list_unbound(run)}, None, source.load_module(fi.module))
+        return engine.call_function(run, fi, [a["self"], a["rhs"]], {}, closure=clo)
+
+    def post(self, a, ret, case):
+        run, a_, b_, arrs0, lay = self.ctx
+        ok = len(self.ctors) == 1 and ret is self.ctors[0] and ret.cls.name == "Emulsion" and len(ret.args) == 1
+        out = [("the sum is one new emulsion built from a list", ok)]
+        if not ok:
+            return out
+        lst = ret.args[0]
+        out.append(("... which is the plain concatenation of the two operands' members (left operand first)",
+                    isinstance(lst, _Concat) and lst.a is a_ and lst.b is b_))
+        out.append(("... with the DEFAULT copy behaviour of the constructor: every member of the sum is an independent copy (EmulsionInit / EmulsionExtend), "
+                    "so later changes of an operand's droplets do not leak into the sum and vice versa",
+                    ret.kwargs.get("copy", True) is True and set(ret.kwargs) <= {"copy"}))
+        out.append(("the operands are not modified", z3.And(frame_old_records(run, arrs0, lay))))
+        return out
+
+
+_Sliced.sym_isinstance = lambda self, run, t: False
+_Concat.sym_isinstance = lambda self, run, t: False
+
+
+@register
+class EmulsionGetitem(Contract):
+    """emulsion[i] is the member itself; emulsion[a:b] is a NEW emulsion built from the slice with the default copy behaviour (independent copies)"""
+    key = f"{EM}:Emulsion.__getitem__"
+    modular = False
+
+    def cases(self):
+        return [dict(cls=c, dim=2, key=k) for c in CLASSES for k in ("index", "slice")]
+
+    def setup(self, run, case):
+        lay = layout_of(case["cls"], case["dim"])
+        touch_layout(run, lay)
+        em = sym_em(run, "self", case["dim"], case["cls"])
+        self.ctors = _record_ctor(run, "Emulsion")
+        if case["key"] == "index":
+            key = run.input_int("index")
+            run.assume(z3.And(key >= 0, key < to_z3(em.length)))
+        else:
+            key = slice(SOpaque("start"), SOpaque("stop"), None)
+        self.ctx = (run, em, key, snapshot(run), lay)
+        return dict(self=em, key=key)
+
+    def call(self, engine, run, fi, a, case):
+        from pyvc.engine import Frame
+        clo = Frame(None, {"list": _list_unbound(run)}, None, source.load_module(fi.module))
+        return engine.call_function(run, fi, [a["self"], a["key"]], {}, closure=clo)
+
+    def post(self, a, ret, case):
+        run, em, key, arrs0, lay = self.ctx
+        if case["key"] == "index":
+            return [("an integer key returns the member itself (the emulsion's own object, not a copy)",
+                     isinstance(ret, H.SRefObj) and ret.ref == z3.Select(em.elems, key) and not self.ctors),
+                    ("nothing is modified", frame_old_records(run, arrs0, lay))]
+        ok = len(self.ctors) == 1 and ret is self.ctors[0] and ret.cls.name == "Emulsion" and len(ret.args) == 1
+        out = [("a slice returns one new emulsion built from a list", ok)]
+        if ok:
+            lst = ret.args[0]
+            out.append(("... which is the plain list slice of the members", isinstance(lst, _Sliced) and lst.lst is em and lst.key is key))
+            out.append(("... with the DEFAULT copy behaviour of the constructor: the members of a slice are independent copies of the source's members",
+                        ret.kwargs.get("copy", True) is True and set(ret.kwargs) <= {"copy"}))
+        out.append(("nothing is modified", frame_old_records(run, arrs0, lay)))
+        return out
+
+
+# ---------------------------------------------------------------------------------------------------
+def _sliceable(lst):
+    """general slices of a symbolic list are kept as (list, key) pairs: what matters to the contracts is WHICH key is applied to WHICH list"""
+    orig = lst.raw_getitem
+
+    def raw_getitem(run, idx):
+        if isinstance(idx, slice):
+            return _Sliced(lst, idx)
+        return orig(run, idx)
+    lst.raw_getitem = raw_getitem
+    return lst
+
+
+def _sym_etc(run, name="etc"):
+    n = run.input_int(f"{name}_len")
+    run.assume(n >= 0)
+    ems = H.SListObj(run, None, n, z3.Array(f"{name}_emulsions", I, I), lambda v: SOpaque("emulsion", term=v), tag=f"{name}.emulsions")
+    ems.unwrap = lambda run2, v: v.term if isinstance(v, SOpaque) else (_ for _ in ()).throw(Undecided("non-emulsion stored"))
+    times = sym_real_list(run, f"{name}_times")
+    run.assume(to_z3(times.length) == n)      # representation invariant: times and emulsions are aligned
+    me = SObj(source.get_class(EM, "EmulsionTimeCourse"), {"emulsions": _sliceable(ems), "times": _sliceable(times)}, tag=name)
+    return me, ems, times, n
+
+
+class _PairGetitem(Contract):
+    """container[key] of a collection that pairs members with times: an integer key gives the member itself, a slice a new collection of the same class
+    built from the SAME slice of both lists (so members and times stay paired)"""
+    modular = False
+    members = "emulsions"
+    ctor = "EmulsionTimeCourse"
+
+    def cases(self):
+        return [dict(key="index"), dict(key="slice")]
+
+    def mk(self, run):
+        raise NotImplementedError
+
+    def setup(self, run, case):
+        me, mem, times, n = self.mk(run)
+        self.ctors = _record_ctor(run, self.ctor)
+        if case["key"] == "index":
+            key = run.input_int("index")
+            run.assume(z3.And(key >= 0, key < n))
+        else:
+            key = slice(SOpaque("start"), SOpaque("stop"), SOpaque("step"))
+        self.ctx = (run, me, mem, times, key, mem.elems, times.elems, n)
+        return dict(self=me, key=key)
+
+    def post(self, a, ret, case):
+        run, me, mem, times, key, E0, T0, n = self.ctx
+        frame = ("the collection itself is not changed", me.fields[self.members] is mem and me.fields["times"] is times and z3.eq(mem.elems, E0) and
+                 z3.eq(times.elems, T0) and z3.eq(to_z3(mem.length), n))
+        if case["key"] == "index":
+            got = getattr(ret, "term", None) if not isinstance(ret, H.SRefObj) else ret.ref
+            return [("an integer key returns member `key` itself", got is not None and not self.ctors and got == z3.Select(E0, key)), frame]
+        ok = len(self.ctors) == 1 and ret is self.ctors[0] and ret.cls.name == self.ctor and not ret.args and set(ret.kwargs) == {self.members, "times"}
+        out = [(f"a slice returns one new {self.ctor} built from members and times", ok)]
+        if ok:
+            m_, t_ = ret.kwargs[self.members], ret.kwargs["times"]
+            out.append(("members and times are cut with the SAME slice of this collection's two lists (they stay paired)",
+                        isinstance(m_, _Sliced) and isinstance(t_, _Sliced) and m_.lst is mem and t_.lst is times and m_.key is key and t_.key is key))
+        return out + [frame]
+
+
+@register
+class ETCGetitem(_PairGetitem):
+    key = f"{EM}:EmulsionTimeCourse.__getitem__"
+
+    def mk(self, run):
+        return _sym_etc(run)
+
+
+@register
+class TrackGetitem(_PairGetitem):
+    key = f"{TR}:DropletTrack.__getitem__"
+    members = "droplets"
+    ctor = "DropletTrack"
+
+    def mk(self, run):
+        tr = sym_track(run, "self", 2, "SphericalDroplet")
+        d, t = tr.fields["droplets"], tr.fields["times"]
+        _sliceable(d), _sliceable(t)
+        return tr, d, t, to_z3(d.length)
+
+
+@register
+class ETCLen(Contract):
+    key = f"{EM}:EmulsionTimeCourse.__len__"
+    modular = False
+
+    def setup(self, run, case):
+        me, ems, times, n = _sym_etc(run)
+        self.n = n
+        return dict(self=me)
+
+    def post(self, a, ret, case):
+        return [("the length of a time course is the number of its (aligned) members", to_z3(ret) == self.n)]
+
+
+@register
+class TrackTimeOverlaps(Contract):
+    """DropletTrack.time_overlaps: the two (non-empty) tracks share a time exactly when each starts no later than the other ends"""
+    key = f"{TR}:DropletTrack.time_overlaps"
+    modular = False
+
+    def cases(self):
+        return [dict(empty=False)]     # requires: both tracks hold at least one entry (tracks built by the library are never empty)
+
+    def setup(self, run, case):
+        a_, b_ = sym_track(run, "self", 2, "SphericalDroplet"), sym_track(run, "other", 2, "SphericalDroplet")
+        ta, tb = a_.fields["times"], b_.fields["times"]
+        if not case["empty"]:
+            run.assume(z3.And(to_z3(ta.length) > 0, to_z3(tb.length) > 0))
+        else:
+            run.assume(to_z3(ta.length) == 0)
+        self.ctx = (ta, tb)
+        return dict(self=a_, other=b_)
+
+    def post(self, a, ret, case):
+        ta, tb = self.ctx
+        if case["empty"]:
+            return [("a track without entries has no start: IndexError", False)]
+        La, Lb = to_z3(ta.length), to_z3(tb.length)
+        s0, s1, o0, o1 = z3.Select(ta.elems, 0), z3.Select(ta.elems, La - 1), z3.Select(tb.elems, 0), z3.Select(tb.elems, Lb - 1)
+        return [("overlap in time <=> self.start <= other.end and other.start <= self.end", to_z3(ret) == z3.And(s0 <= o1, o0 <= s1))]
+
+    def raises(self, a, exc, case):
+        if case["empty"]:
+            return [("a track without entries has no start: IndexError", exc.cls_name == "IndexError")]
+        return [(f"no exception escapes (raised {exc.cls_name})", False)]
+
+
+# ---------------------------------------------------------------------------------------------------
+from .collections import KEY_RST, RemoveSmallLoop   # noqa: E402
+
+DURF = z3.Function("duration_of_track", I, Rl)
+
+
+@loop(KEY_RST, 0)
+class RemoveShortLoop(RemoveSmallLoop):
+    """same reverse filter loop as Emulsion.remove_small, over tracks and their durations"""
+    threshold_name = "min_duration"
+
+    def measure(self, run, me, g):
+        return lambda j: DURF(z3.Select(g["E0"], j))
+
+
+@register
+class RemoveShortTracks(Contract):
+    """DropletTrackList.remove_short_tracks: order-preserving filter `duration > min_duration` of the same track objects"""
+    key = KEY_RST
+    modular = False
+
+    def cases(self):
+        return [dict()]
+
+    def setup(self, run, case):
+        n = run.input_int("n_tracks")
+        run.assume(n >= 0)
+        wrap = lambda ref: SOpaque("track", term=ref, attrs={"duration": DURF(ref)})      # noqa: E731  (duration: TrackDuration, verified separately)
+        me = H.SListObj(run, source.get_class(TR, "DropletTrackList"), n, z3.Array("tracks", I, I), wrap, tag="self")
+        me.unwrap = lambda run2, v: v.term
+        me.fields = {}
+        md = run.input_real("min_duration")
+        self.ctx = (run, me, md, me.elems, n)
+        return dict(self=me, min_duration=md)
+
+    def post(self, a, ret, case):
+        run, me, md, E0, L0 = self.ctx
+        g = run.ghost.get("rs")
+        if g is None:
+            return [("the filter loop ran", False)]
+        n = to_z3(me.length)
+        k, l = z3.Ints("fk fl")
+        idx = g["idx"]
+        return [("every remaining track lasts longer than min_duration and is an original object; order is kept",
+                 z3.And(z3.ForAll([k], z3.Implies(z3.And(k >= 0, k < n), z3.And(idx(k) >= 0, idx(k) < L0, DURF(z3.Select(E0, idx(k))) > md,
+                                                                              z3.Select(me.elems, k) == z3.Select(E0, idx(k))))),
+                        z3.ForAll([k, l], z3.Implies(z3.And(k >= 0, k < l, l < n), idx(k) < idx(l))))),
+                ("if every track lasts longer than min_duration the list is unchanged",
+                 z3.Implies(z3.ForAll([l], z3.Implies(z3.And(l >= 0, l < L0), DURF(z3.Select(E0, l)) > md)),
+                            z3.And(n == L0, z3.ForAll([k], z3.Implies(z3.And(k >= 0, k < n), z3.Select(me.elems, k) == z3.Select(E0, k)))))),
+                ("returns None", ret is None)]
+
+
+# ---------------------------------------------------------------------------------------------------
+@register
+class ETCGetEmulsion(Contract):
+    """EmulsionTimeCourse.get_emulsion(time): the member whose time stamp is closest to `time` (a member of a non-empty course, paired by index)"""
+    key = f"{EM}:EmulsionTimeCourse.get_emulsion"
+    modular = False
+
+    def cases(self):
+        return [dict()]
+
+    def setup(self, run, case):
+        me, ems, times, n = _sym_etc(run)
+        run.assume(n >= 1)        # requires: a non-empty time course (numpy's argmin raises ValueError for an empty one)
+        ksk = z3.Int("sk_entry")
+        run.assume(z3.And(ksk >= 0, ksk < n))
+        times.sym_asarray = lambda run2: SCell(z3.Select(times.elems, ksk), "times")
+        g = run.ghost["argmin"] = []
+
+        def hook(run2, cell):
+            idx = run2.fresh_int("argmin")
+            v = to_real(cell.v)
+            run2.oblige("argmin is taken over an array with one entry per time stamp", z3.BoolVal(cell.space == "times"), kind="requires", assume_after=False)
+            run2.define(z3.And(idx >= 0, idx < n, z3.substitute(v, (ksk, idx)) <= v), "ASSUMED (numpy.argmin): index of a smallest entry of a non-empty array")
+            run2.trust("ASSUMED (numpy.argmin): returns the index of a smallest entry (the first one) of a non-empty array")
+            g.append(idx)
+            return idx
+        run.ghost["argmin_hook"] = hook
+        t = run.input_real("time")
+        self.ctx = (run, me, ems, times, n, t, ksk)
+        return dict(self=me, time=t)
+
+    def post(self, a, ret, case):
+        run, me, ems, times, n, t, ksk = self.ctx
+        g = run.ghost["argmin"]
+        if len(g) != 1 or getattr(ret, "term", None) is None:
+            return [("the member is selected by one argmin over the time stamps", False)]
+        idx = g[0]
+        ab = lambda x: z3.If(x >= 0, x, -x)     # noqa: E731
+        return [("the returned member is the one stored at the selected index (members and times are paired by index)", ret.term == z3.Select(ems.elems, idx)),
+                ("no other member's time stamp is closer to the requested time", ab(z3.Select(times.elems, idx) - t) <= ab(z3.Select(times.elems, ksk) - t))]
+
+
+# ---------------------------------------------------------------------------------------------------
+def _record_np_stats(run):
+    calls = []
+
+    def mk(name):
+        def f(engine, run2, a, k):
+            r = run2.fresh_real(name)
+            calls.append((name, a[0] if a else None, dict(k), r))
+            run2.trust(f"ASSUMED (numpy.{name}): a function of the multiset of the given values (order-independent)")
+            return r
+        return f
+    models.EXTERNALS["numpy.mean"] = mk("mean")
+    models.EXTERNALS["numpy.std"] = mk("std")
+    return calls
+
+
+def _filter_len(fm, run):
+    """len() of a filtered comprehension: a ghost count, 0 <= count <= length of the source (its value is the number of kept members by definition)"""
+    if not hasattr(fm, "_count"):
+        fm._count = run.fresh_int("count")
+        run.define(z3.And(fm._count >= 0, fm._count <= to_z3(fm.n)), "count of a filter (definition)")
+    return fm._count
+
+
+@register
+class SizeStatistics(Contract):
+    """Emulsion.get_size_statistics: count / mean / std of the radii and volumes of all members, or of those with radius > 0 only"""
+    key = f"{EM}:Emulsion.get_size_statistics"
+    modular = False
+
+    def cases(self):
+        return [dict(cls="SphericalDroplet", dim=d, incl=i, empty=False) for d in (2, 3) for i in (True, False)] + \
+               [dict(cls="SphericalDroplet", dim=2, incl=True, empty=True)]
+
+    def setup(self, run, case):
+        from .parallel import SFilterMap
+        lay = layout_of(case["cls"], case["dim"])
+        touch_layout(run, lay)
+        em = sym_em(run, "self", case["dim"], case["cls"])
+        run.assume(to_z3(em.length) == 0 if case["empty"] else to_z3(em.length) >= 1)
+        view = EmView(run, case["dim"], case["cls"], em.elems)
+        self.stats = _record_np_stats(run)
+        SFilterMap.sym_len = lambda fm, run2: _filter_len(fm, run2)
+        self.ctx = (run, em, view, snapshot(run), lay)
+        return dict(self=em, incl_vanished=case["incl"])
+
+    def post(self, a, ret, case):
+        from .parallel import SFilterMap
+        run, em, view, arrs0, lay = self.ctx
+        keys = {"count", "radius_mean", "radius_std", "volume_mean", "volume_std"}
+        if not (isinstance(ret, dict) and set(ret) == keys):
+            return [("the result has exactly the five documented entries", False)]
+        if case["empty"]:
+            from pyvc.values import SMaybeNaN
+            isnan = lambda v: isinstance(v, SMaybeNaN) and v.isnan is True       # noqa: E731
+            return [("an empty emulsion has count 0 and not-a-number statistics", ret["count"] == 0 and all(isnan(ret[k_]) for k_ in keys - {"count"}) and not self.stats)]
+        by = {(nm): (arg, r) for nm, arg, kw, r in self.stats}
+        want = [("radius_mean", "mean"), ("radius_std", "std"), ("volume_mean", "mean"), ("volume_std", "std")]
+        if len(self.stats) != 4 or any(kw for _, _, kw, _ in self.stats):
+            return [("mean and standard deviation of radii and of volumes are taken (four numpy reductions with default options)", False)]
+        out = []
+        k = z3.Int("sk_member")
+        inr = z3.And(k >= 0, k < to_z3(em.length))
+        lists = {}
+        for key_, red in want:
+            hit = [(arg, r) for nm, arg, kw, r in self.stats if nm == red and ret[key_] is r]
+            out.append((f"`{key_}` is numpy's {red} of one list", len(hit) == 1))
+            if len(hit) == 1:
+                lists[key_] = hit[0][0]
+        if len(lists) != 4:
+            return out
+        out.append(("mean and standard deviation are taken of the same list (radii / volumes)",
+                    lists["radius_mean"] is lists["radius_std"] and lists["volume_mean"] is lists["volume_std"]))
+        for nm, spec in (("radius_mean", lambda j: view.radius(j)), ("volume_mean", lambda j: to_real(S.V(case["dim"], view.radius(j))))):
+            lst = lists[nm]
+            what = nm.split("_")[0]
+            if case["incl"]:
+                ok = isinstance(lst, SSeq)
+                out.append((f"with vanished droplets included the {what} list has one entry per member: its {what}",
+                            z3.And(to_z3(lst.length) == to_z3(em.length), z3.Implies(inr, to_real(lst.at(k)) == spec(k))) if ok else False))
+            else:
+                ok = isinstance(lst, SFilterMap)
+                out.append((f"without vanished droplets the {what} list holds the {what} of exactly the members with radius > 0, in order",
+                            z3.And(to_z3(lst.n) == to_z3(em.length), z3.Implies(inr, z3.And(to_z3(lst.keep(k)) == (view.radius(k) > 0), to_real(lst.val(k)) == spec(k))))
+                            if ok else False))
+        rl = lists["radius_mean"]
+        cnt = ret["count"]
+        if case["incl"]:
+            out.append(("count is the number of members", z3.is_expr(cnt) and to_z3(cnt) == to_z3(em.length) if not isinstance(cnt, int) else False))
+        else:
+            out.append(("count is the length of the filtered radius list", getattr(rl, "_count", None) is not None and cnt is rl._count))
+        out.append(("no droplet is modified", frame_old_records(run, arrs0, lay)))
+        return out
